@@ -42,8 +42,8 @@ fn c10_strategy() -> impl Strategy<Value = Scenario> {
     )
         .prop_map(|((amountless, amount, hints, explicit_payee), field, sig, hash_differs, allow_self, (base, ppm), seed)| {
             let cfg = Cfg { base, ppm, allow_self, ..Cfg::default() };
-            let p0 = PaymentSpec { preimage: 0x11, invoice_amount: if amountless { None } else { Some(amount) }, tlv_amount: amount, hints, explicit_payee, recipient_ok: false, drain_parts: 1 };
-            let p1 = PaymentSpec { preimage: 0x22, invoice_amount: Some(1_000_000), tlv_amount: 1_000_000, hints: Hints::None, explicit_payee: false, recipient_ok: false, drain_parts: 1 };
+            let p0 = PaymentSpec { preimage_hi: 0, preimage: 0x11, invoice_amount: if amountless { None } else { Some(amount) }, tlv_amount: amount, hints, explicit_payee, recipient_ok: false, drain_parts: 1 };
+            let p1 = PaymentSpec { preimage_hi: 0, preimage: 0x22, invoice_amount: Some(1_000_000), tlv_amount: 1_000_000, hints: Hints::None, explicit_payee: false, recipient_ok: false, drain_parts: 1 };
             let fbytes = |f: &AmtField| -> Option<Vec<u8>> {
                 Some(match f {
                     AmtField::Absent => return None,
